@@ -156,6 +156,40 @@ def positionsOf (quads : List (List Nat)) (faces : List (List V3)) (n : Nat) : L
 /-- `MeshSmoother.backport`: vertex `i` is moved to point `i` -/
 def backportMesh (p : List V3) : List V3 := (List.range p.length).map (pget p)
 
+/-! ### histories: several calls on one smoother, and a sketch that is smoothed again after it was moved -/
+
+/-- TOL² of `fix_points` -/
+def tol2 : Rat := 1 / (10 ^ 14 : Nat)
+
+/-- one call on a `SmootherBase` -/
+inductive Op where
+  | fixIdx (l : List Nat)
+  | fixPts (q : List V3)
+  | smooth (k : Nat)
+  deriving Repr
+
+/-- state of a smoother: the fixed set (`self.fixed`, only ever extended) and the grid points -/
+structure SmState where
+  fixed : List Nat
+  p : List V3
+  deriving Repr
+
+/-- `fix_indexes` / `fix_points` add to the fixed set (`set.update` / `set.add`); `fix_points` looks at the
+    *current* positions; `smooth` works with everything fixed so far -/
+def runOp (g : Grid) (s : SmState) : Op → SmState
+  | .fixIdx l => { s with fixed := s.fixed ++ l }
+  | .fixPts q => { s with fixed := s.fixed ++ fixPoints tol2 s.p q }
+  | .smooth k => { s with p := smooth g s.fixed k s.p }
+
+def runOps (g : Grid) (s : SmState) (ops : List Op) : SmState := ops.foldl (runOp g) s
+
+/-- `SketchSmoother(sketch).smooth(k)` on the *faces* of a mapped sketch: the grid is built on
+    `sketch.positions`, which is reconstructed from the faces as they are now (no memory of earlier reads),
+    and the result is copied back into every face -/
+def smoothSketch (quads : List (List Nat)) (faces : List (List V3)) (n : Nat) (fixed : List Nat) (k : Nat) :
+    List (List V3) :=
+  backportSketch quads (smooth ⟨quadKind, quads, n⟩ fixed k (positionsOf quads faces n))
+
 /-! ### lattice-like grids (hypothesis of `T_C15_lattice_partial`, decided per grid) -/
 
 /-- lattice coordinates of the points of the structured map with `nx` cells per row -/
@@ -251,8 +285,62 @@ def handleLattice (args : List String) : Option String :=
       some (toString (latticeLikeB g fi (pget cs)))
   | _ => none
 
+def parseOp? (s : String) : Option Op :=
+  if s.startsWith "I" then (parseNatList? (s.drop 1).toString).map Op.fixIdx
+  else if s.startsWith "P" then (parsePts? (s.drop 1).toString).map Op.fixPts
+  else if s.startsWith "S" then (parseNat? (s.drop 1).toString).map Op.smooth
+  else none
+
+/-- `c15.hist kind cells points op|op|…` (`I[i,j]`, `Px,y,z;…`, `Sk`) → after every call the fixed set
+    (`X[…]`) resp. the positions (`Y…`), separated by `|`; `undefined` as soon as a smoothing call would
+    average an empty neighbour list -/
+def handleHist (args : List String) : Option String :=
+  match args with
+  | [k, cells, pts, ops] => do
+      let kind ← kindOf? k
+      let cells ← parseCells? cells
+      let p ← parsePts? pts
+      let ops ← (ops.splitOn "|").mapM parseOp?
+      let g : Grid := ⟨kind, cells, p.length⟩
+      if !wellFormed g then some "reject" else
+      let step := fun (acc : Option (SmState × List String)) (op : Op) =>
+        match acc with
+        | none => none
+        | some (s, out) =>
+          let s' := runOp g s op
+          match op with
+          | .smooth _ =>
+              if !defined g s.fixed then none
+              else some (s', out ++ ["Y" ++ ";".intercalate (s'.p.map showV60)])
+          | _ => some (s', out ++ ["X" ++ showNatList s'.fixed])
+      match ops.foldl step (some (⟨[], p⟩, [])) with
+      | none => some "undefined"
+      | some (_, out) => some ("|".intercalate out)
+  | _ => none
+
+/-- `c15.sketch cells faces fixedIdx iters` (faces: `pts|pts|…`, as they are before the call) →
+    faces after `SketchSmoother(sketch).smooth(iters)` and the positions read back -/
+def handleSketch (args : List String) : Option String :=
+  match args with
+  | [cells, faces, fixedIdx, iters] => do
+      let cells ← parseCells? cells
+      let fs ← (faces.splitOn "|").mapM parsePts?
+      let fi ← parseNatList? fixedIdx
+      let it ← parseNat? iters
+      if fs.length != cells.length || !(fs.all (fun f => f.length == 4)) || cells.flatten.isEmpty then some "reject" else
+      let n := cells.flatten.foldl max 0 + 1
+      let g : Grid := ⟨quadKind, cells, n⟩
+      if !wellFormed g || !((List.range n).all (fun i => cells.flatten.contains i)) then some "reject" else
+      if !defined g fi then some "undefined" else
+      let out := smoothSketch cells fs n fi it
+      let showPts (l : List V3) := ";".intercalate (l.map showV60)
+      some s!"F {"|".intercalate (out.map showPts)} R {showPts (positionsOf cells out n)}"
+  | _ => none
+
 def handle (op : String) (args : List String) : Option String :=
   match op with
+  | "c15.hist" => handleHist args
+  | "c15.sketch" => handleSketch args
   | "c15.lattice" => handleLattice args
   | "c15.topo" => handleTopo args
   | "c15.smooth" => handleSmooth args
